@@ -715,4 +715,42 @@ theorem pairwise_dropLast_lt (l : List Nat) (m : Nat) (hp : l.Pairwise (· < ·)
   rw [e] at hp
   exact (List.pairwise_append.mp hp).2.2 a ha m (by simp)
 
+theorem foldl_count {α : Type} (l : List (Option α)) (n : Nat) :
+    l.foldl (fun acc s => acc + onesAt s) n = n + (l.filterMap id).length := by
+  induction l generalizing n with
+  | nil => simp
+  | cons a as ih =>
+    rw [List.foldl_cons, ih]
+    cases a with
+    | none => simp [onesAt]
+    | some v => simp [onesAt]; omega
+
+theorem extCombine_none_right (isMax : Bool) (a : Option Int) : extCombine isMax a none = a := by
+  cases a <;> rfl
+
+theorem extFold_filter {β : Type} (isMax : Bool) (g : β → Int) (l : List (Option β)) (acc : Option Int) :
+    l.foldl (fun acc s => extCombine isMax acc (s.map g)) acc
+      = (l.filterMap id).foldl (fun acc v => extCombine isMax acc (some (g v))) acc := by
+  induction l generalizing acc with
+  | nil => rfl
+  | cons a as ih =>
+    cases a with
+    | none => simp [extCombine_none_right, ih]
+    | some v => simp [ih]
+
+theorem extFold_some {β : Type} (isMax : Bool) (g : β → Int) (l : List β) (u : Int) :
+    l.foldl (fun acc v => extCombine isMax acc (some (g v))) (some u)
+      = some (l.foldl (fun a b => if isMax then max a (g b) else min a (g b)) u) := by
+  induction l generalizing u with
+  | nil => rfl
+  | cons a as ih =>
+    have e : extCombine isMax (some u) (some (g a)) = some (if isMax then max u (g a) else min u (g a)) := rfl
+    simp only [List.foldl_cons, e, ih]
+
+theorem poolGeomGen_ok (orig : Bool) (shape window strides : List Nat) (pad : PoolPad) (r : Bool × List Nat × PoolGeom)
+    (h : poolGeomGen orig shape window strides pad = .ok r) : r = poolGeomCore orig shape window strides pad := by
+  simp only [poolGeomGen, bind, Except.bind, pure, Except.pure, throw, throwThe, MonadExceptOf.throw] at h
+  repeat' split at h
+  all_goals first | (cases h; rfl) | (exact absurd h (by simp)) | (injection h with h; exact h.symm)
+
 end Flax.Layers
